@@ -329,6 +329,8 @@ class Fn:
                 return args[0]
         if generic == "std::clone::Clone::clone" and args:
             return ("call", "clone", args, (self.name, bb))
+        if generic in ("std::ops::Index::index", "std::ops::IndexMut::index_mut") and len(args) == 2:
+            return ("index", args[0], args[1])
         # accessor inlining: a local straight-line function without effects is replaced by its body
         if t["res"] == "item" and callee in self.facts.fns and len(stack) < 40:
             g = self.facts.fns[callee]
@@ -588,6 +590,12 @@ OVERFLOW_OPS = {"AddWithOverflow": "Add", "SubWithOverflow": "Sub", "MulWithOver
 
 
 def project(base, name):
+    if base == ("env",) and "." in name:
+        parts = name.split(".")
+        out = ("field", base, parts[0])
+        for p in parts[1:]:
+            out = ("field", out, p)
+        return out
     if base[0] == "binop" and base[1] in OVERFLOW_OPS:
         # checked arithmetic: (a op b).0 is the result, .1 the overflow flag
         if name == "0":
@@ -1192,7 +1200,8 @@ def closure_captures(F, cdef):
         for i, s in enumerate(p.blocks[b]["stmts"]):
             if s["k"] == "assign" and s["rv"]["k"] == "agg" and s["rv"].get("closure") == cdef:
                 e = p.origin_rvalue(s["rv"])
-                return p, dict(e[3])
+                caps = dict(e[3])
+                return p, caps
     return None
 
 
